@@ -144,9 +144,17 @@ impl UserFunction for TFn {
     }
 
     fn cacheable(&self) -> bool {
+        // functions named "tg…" declare whatever the switch says at the moment they are asked (a price feed that is
+        // repeatable while the market is closed, …); the harness flips the switch only between evaluations
+        if self.desc.name.starts_with("tg") {
+            return TOGGLE_CACHEABLE.load(std::sync::atomic::Ordering::SeqCst);
+        }
         self.desc.cacheable
     }
 }
+
+/// what every "tg…" function answers from `cacheable()` right now (each shard is a single-threaded process)
+pub static TOGGLE_CACHEABLE: std::sync::atomic::AtomicBool = std::sync::atomic::AtomicBool::new(true);
 
 /// A function that does NOT override `cacheable()`: the trait's default (cacheable) applies.
 pub struct DefaultCacheable(pub TFn);
